@@ -243,6 +243,11 @@ func genOsmApi(repo string) *genFile {
 	}
 	g.pf("]\n\n")
 	g.pf("def doCalls : Nat := %d\ndef doInLoop : Bool := %v\ndef limiterWaitBeforeDo : Bool := %v\n", doCalls, doInLoop, waitBeforeDo)
+	{
+		var out []string
+		p.flat(fd.Body, &out)
+		g.pf("def getFromAPIBody : List String := %s\n", leanStrList(out))
+	}
 	// NotFound: which error type it tests
 	nf := "?"
 	if d := decls["NotFound"]; d != nil {
